@@ -9,12 +9,14 @@ import (
 	"context"
 	"errors"
 	"fmt"
+	"runtime"
 	"strings"
 
 	"diagonal.works/b6"
 	"diagonal.works/b6/api"
 	"diagonal.works/b6/api/functions"
 	"verif/kit"
+	"verif/racekit"
 	"verif/sched"
 )
 
@@ -31,8 +33,8 @@ var obs obsT
 
 type scenario struct {
 	items, cores int
-	failItem     int  // index of the item whose function call fails (-1 = none)
-	iterFail     int  // the input iterator fails after this many items (-1 = never)
+	failItem     int // index of the item whose function call fails (-1 = none)
+	iterFail     int // the input iterator fails after this many items (-1 = never)
 }
 
 func (s scenario) String() string {
@@ -50,7 +52,7 @@ type failingIterator struct {
 }
 
 func (c *failingCollection) Begin() b6.Iterator[any, any] { return &failingIterator{c: c, i: -1} }
-func (c *failingCollection) Count() (int, bool)             { return c.n, true }
+func (c *failingCollection) Count() (int, bool)           { return c.n, true }
 func (it *failingIterator) Next() (bool, error) {
 	it.i++
 	if it.c.after >= 0 && it.i >= it.c.after {
@@ -58,8 +60,8 @@ func (it *failingIterator) Next() (bool, error) {
 	}
 	return it.i < it.c.n, nil
 }
-func (it *failingIterator) Key() interface{}              { return it.i }
-func (it *failingIterator) Value() interface{}            { return 10 * it.i }
+func (it *failingIterator) Key() interface{}               { return it.i }
+func (it *failingIterator) Value() interface{}             { return 10 * it.i }
 func (it *failingIterator) KeyExpression() b6.Expression   { return b6.NewIntExpression(it.i) }
 func (it *failingIterator) ValueExpression() b6.Expression { return b6.NewIntExpression(10 * it.i) }
 
@@ -218,10 +220,25 @@ func scenarios(tier string) []scenario {
 }
 
 func main() {
+	if n, ok := racekit.BodyMode(); ok {
+		// race pass: the same bodies free-running (no controlled execution is
+		// active, so the shims are the real primitives), un-rewritten tree, -race
+		runtime.GOMAXPROCS(16)
+		for it := 0; it < n; it++ {
+			for _, s := range scenarios("thorough") {
+				s.body()()
+			}
+			for _, s := range vmScenarios("thorough") {
+				s.body()()
+			}
+		}
+		fmt.Println("race pass done")
+		return
+	}
 	kit.Main(&kit.Check{
 		ID: "C25", Level: "model_checking",
-		Rule: "scenario = (items, cores, failing item | failing input iterator position); per scenario every interleaving of dispatcher, workers, errgroup and consumer at the synchronisation points of the rewritten real code plus a yield inside the mapped function. Oracle: the sequence map-parallel yields is map's sequence (run sequentially on the same input), or a prefix of it followed by the error when map fails; the consumer always finishes.",
-		Assumptions: []string{"code between two synchronisation operations runs atomically", "the consumer drains the iterator to its end (the statement does not cover abandoned iterators)"},
+		Rule:          "scenario = (items, cores, failing item | failing input iterator position); per scenario every interleaving of dispatcher, workers, errgroup and consumer at the synchronisation points of the rewritten real code plus a yield inside the mapped function. VM family: the whole expression evaluated by api.Evaluate with Context.Cores>=2, compared with the same expression with map in place of map-parallel. Oracle: the sequence map-parallel yields is map's sequence (run sequentially on the same input), or a prefix of it followed by the error when map fails; the consumer always finishes.",
+		Assumptions:   []string{"code between two synchronisation operations runs atomically", "the consumer drains the iterator to its end (the statement does not cover abandoned iterators)"},
 		QuickDeadline: 200e9, ThoroughDeadline: 1500e9, CaseTimeout: 400e9, Chunk: 1, WorkerEnv: []string{"GOMAXPROCS=1"},
 		Build: func(tier string) (kit.Space, string) {
 			sc := scenarios(tier)
@@ -229,11 +246,30 @@ func main() {
 			if tier == "thorough" {
 				bound, maxExec = 3, 500000
 			}
-			return kit.FuncSpace{N: int64(len(sc)), F: func(i int64) kit.Result {
-				s := sc[i]
+			vsc := vmScenarios(tier)
+			return kit.FuncSpace{N: int64(len(sc)+len(vsc)) + 1, F: func(i int64) kit.Result {
 				var r kit.Result
-				ref := s.reference()
-				res := sched.Explore(s.body(), s.check(ref), sched.Options{MaxPreemptions: bound, MaxExecutions: maxExec})
+				if i == int64(len(sc)+len(vsc)) {
+					// auxiliary: the same bodies free-running under the race detector
+					iters := "20"
+					if tier == "thorough" {
+						iters = "500"
+					}
+					racekit.Pass(&r, "c25", "./checks/c25", "", nil, []string{"VERIF_RACE_BODY=" + iters})
+					return r
+				}
+				var body func()
+				var check sched.Check
+				var name string
+				if i < int64(len(sc)) {
+					s := sc[i]
+					body, check, name = s.body(), s.check(s.reference()), s.String()
+				} else {
+					s := vsc[i-int64(len(sc))]
+					body, check, name = s.body(), s.check(s.reference()), s.String()
+					r.Count("vm_scenarios", 1)
+				}
+				res := sched.Explore(body, check, sched.Options{MaxPreemptions: bound, MaxExecutions: maxExec})
 				r.Evals, r.States, r.Transitions, r.Distinct = res.Executions, res.States, res.Transitions, res.States
 				r.Nontrivial = res.MaxPoints > 0
 				r.Capped = res.Capped
@@ -245,10 +281,10 @@ func main() {
 					r.Count(fmt.Sprintf("scenarios_completed_to_bound_%d", res.BoundCompleted), 1)
 				}
 				for _, f := range res.Failures {
-					e1 := sched.Replay(s.body(), f.Choices, 0)
-					_, f1 := s.check(ref)(e1)
-					e2 := sched.Replay(s.body(), f.Choices, 0)
-					_, f2 := s.check(ref)(e2)
+					e1 := sched.Replay(body, f.Choices, 0)
+					_, f1 := check(e1)
+					e2 := sched.Replay(body, f.Choices, 0)
+					_, f2 := check(e2)
 					if fmt.Sprint(f1) != fmt.Sprint(f2) || len(f1) == 0 {
 						r.Violate("harness:nondeterministic-replay", "%s: schedule %v gave %v then %v", f.Class, f.Choices, f1, f2)
 						continue
@@ -259,11 +295,11 @@ func main() {
 					}
 					r.Violate(f.Class, "%s\nschedule (choices): %v\ntrace tail:\n  %s", f.Msg, f.Choices, strings.Join(tr, "\n  "))
 				}
-				if i%5 == 0 {
-					r.Sample = map[string]interface{}{"scenario": s.String(), "executions": res.Executions, "states": res.States, "unbounded": res.Unbounded, "outcomes": res.Outcomes}
+				if i%5 == 0 || i >= int64(len(sc)) {
+					r.Sample = map[string]interface{}{"scenario": name, "executions": res.Executions, "states": res.States, "unbounded": res.Unbounded, "outcomes": res.Outcomes}
 				}
 				return r
-			}}, fmt.Sprintf("%d scenarios; preemption bound %d (unbounded where no alternative was cut); execution cap %d per scenario", len(sc), bound, maxExec)
+			}}, fmt.Sprintf("%d scenarios on the collection function directly + %d scenarios through the VM (lambda, closure over an enclosing lambda's variable, partial application, failing lambda, nested map-parallel; cores 2%s); preemption bound %d (unbounded where no alternative was cut); execution cap %d per scenario", len(sc), len(vsc), map[bool]string{true: ",3", false: ""}[tier == "thorough"], bound, maxExec)
 		},
 	})
 }
